@@ -15,7 +15,8 @@ RULE = ("MDP specs without action-less states: discounted (rewards of either sig
         "gain by the multichain LP (HiGHS) AND by deterministic-policy enumeration with Cesaro limits, which must "
         "agree with each other. Only runs that report convergence are asserted. Non-trivial: undiscounted with >=2 "
         "closed classes under some deterministic policy, or a state whose gain / value depends on the action; "
-        "distinct by spec hash.")
+        "distinct by spec hash."
+        " Also: sweep budgets of 1-5, MDPs of 8-30 states (LP gain reference), rewards that differ by a hair at magnitude 1000 (with MPI's own tie band as tolerance).")
 ASSUMPTIONS = ["scipy.optimize.linprog (HiGHS) and numpy.linalg on <=6 states; the two gain references must agree to 1e-7 or the run is a harness error",
                "non-converged runs are counted, not asserted (the statement is conditional)"]
 TOL = 2e-6  # gains come from a Gram-matrix solve: observed noise up to 3e-7 on exact-integer problems
